@@ -117,6 +117,9 @@ class Registry:
                 elif dname == "contract":
                     c = self._parse_contract(dec, node, path)
                     self.contracts[c.target] = c
+                    import copy as _copy
+                    for g in getattr(c, "ghosts", []) or []:
+                        pass
                 elif dname == "lemma":
                     c = self._parse_contract(dec if isinstance(dec, ast.Call) else None, node, path, lemma=True)
                     self.lemmas[node.name] = c
